@@ -1,5 +1,5 @@
 CONSTANTS
-  BodyLens = {0, 2, 4, 12, 20, 24, 28}
+  BodyLens = {0, 2, 4, 12, 20, 24, 28, 516, 600}
   Tails = {0, 4, 24, 28}
   Contexts = {"none", "unk0"}
   Derived = FALSE
